@@ -317,6 +317,11 @@ def load_realign(repo):
             if k == "multiprocessing" or k.startswith("multiprocessing.") or k in ("time", "signal", "os", "threading", "queue"):
                 del sys.modules[k]
         sys.modules.update(saved)
+    # modules that came in with the seam import (e.g. helpers split off into new files) are scanned as well
+    for mname, m in list(sys.modules.items()):
+        f = getattr(m, "__file__", None) if (mname == "gaftools" or mname.startswith("gaftools.")) else None
+        if f and f.endswith(".py") and os.path.relpath(f, repo) not in used and os.path.exists(f):
+            _MOD_INFO["foreign"] += ["%s:%s" % (os.path.basename(f), x) for x in scan_imports(f)]
     gaftools.timer.time = SIM_TIME
     logging.getLogger("gaftools").setLevel(logging.CRITICAL + 10)
     logging.getLogger().setLevel(logging.CRITICAL + 10)
